@@ -75,7 +75,10 @@ def main():
     os.makedirs(cache, exist_ok=True)
     import atexit, shutil
     atexit.register(lambda: shutil.rmtree(cache, ignore_errors=True))
-    os.makedirs(os.path.join(ROOT, "evidence"), exist_ok=True)
+    # developer runs against a scratch copy of the repository (VERIF_REPO set) must not overwrite the committed evidence
+    scratch = os.environ.get("VERIF_REPO") not in (None, "", "/repo")
+    evdir = os.path.join(ROOT, ".cache", "scratch_evidence") if scratch else os.path.join(ROOT, "evidence")
+    os.makedirs(evdir, exist_ok=True)
     rdir = os.path.join(ROOT, "replays", prop)
     os.makedirs(rdir, exist_ok=True)
 
@@ -275,7 +278,7 @@ def main():
     ev = {"property_id": prop, "tier": tier, "seed": seed, "level": level, "coverage": cov,
           "assumptions": sorted(set(assumptions + ((B or {}).get("assumptions", []) if B else []))),
           "wall_s": round(time.time() - t0, 2), "violations": n_viol}
-    with open(os.path.join(ROOT, "evidence", prop + ".json"), "w") as f:
+    with open(os.path.join(evdir, prop + ".json"), "w") as f:
         json.dump(ev, f, indent=1, default=str)
 
     if n_viol:
